@@ -1,6 +1,6 @@
 """C04 — a failing request fails alone, with its original error.  DESIGN §5 C04.  Same scenario and
 model as C02, generation biased towards failures; the monitors of this property are the C04 rules
-(innocent-failed, wrong-exception, traceback, call-on-exception, batch-member-missed,
+(innocent-failed, foreign-exception, traceback, call-on-exception, batch-member-missed,
 batch-nonmember-failed)."""
 import c02
 
